@@ -393,7 +393,7 @@ def rule_clone(F, R, fns, thorough):
             else:
                 detail = "returns " + pp(v)
         R.check(ok, "R-C19-4", inst, f.loc(), "clone() copy-constructs its own class from *this", "clone() of %s %s" % (f.cls, detail))
-    R.floor("R-C19-4/clone", n, 125 if thorough else 30, "clone() bodies")
+    R.floor("R-C19-4/clone", n, 125 if thorough else 90, "clone() bodies")
     # factory registrations: T must declare clone itself
     nreg = 0
     for f in fns:
@@ -642,9 +642,25 @@ def rule_read_kind(F, R, rule="R-C19-9", floor=1):
     R.floor(rule, n, floor, "reads of real-valued parameters whose registration is in view")
 
 
+def _clone_units(ctx):
+    """translation units that define a clone() member (found by scanning the sources the build compiles): the sibling rule R-C19-4 covers every
+    clone body also in the quick tier"""
+    import os
+    from ..facts import REPO
+    out = []
+    for t in ctx.all_tus():
+        p_ = os.path.join(REPO, t)
+        try:
+            if "::clone() const" in open(p_, errors="replace").read():
+                out.append(t)
+        except OSError:
+            pass
+    return out
+
+
 def run(ctx):
     R = ctx.report
-    tus = ctx.all_tus() if ctx.thorough else QUICK_TUS
+    tus = ctx.all_tus() if ctx.thorough else sorted(set(QUICK_TUS) | set(_clone_units(ctx)))
     F = ctx.facts(tus)
     fns = [f for f in F.functions.values() if not f.relfile.startswith("/")]
     rule_update(F, R)
